@@ -110,6 +110,13 @@ CLAIMED = {
         "Trusted: tokio paused clock (both endpoints and the harness read the same virtual time, so one-way delays are exact), the recording application stubs, reference codec for the scripted side. Accuracy of a dishonest non-LAN run is not judged (only that it fails when the report exceeds the round trip); +-1 ms for millisecond truncation.",
         "DESIGN.md section 6 C18",
     ),
+    "C02": (
+        "S-PAIR",
+        "deterministic simulation: seeded search over database shapes, update transactions (also injected at the outstation task's lock and wait points), polls, unsolicited reporting, commands and connection faults (cut, cut right after the n-th write, stall, refused reconnect, disable/enable, re-chunking on both sockets) with the real master and the real outstation connected through the simulated network; oracle = provenance, freshness, at-least-once and final-equality checks of everything the master's ReadHandler received against the harness' ledger of what the outstation's database held and created",
+        "Seeded exploration (not exhaustive). Two scenarios: converge (start-up integrity poll, periodic integrity poll, unsolicited on or off) and unsolicited-only (no poll after start-up, every update creates an event). During the run: every value handed to the master's ReadHandler belongs to an existing point; an event equals (value, flags, time as far as the variation carries them) an event created for exactly that point no later than its delivery; a static value equals a value the point held at some moment between the start of the read that fetched it and its delivery (nothing fabricated, cross-wired or resurrected); the outstation's UpdateInfo bookkeeping is consistent (ids unique, discards oldest-first, capacity). After faults and updates have stopped for 60 s on a live connection: every event not reported as overflow-discarded has reached the handler at least once (identical events matched one to one), and for every point the last static value delivered (unsolicited-only: the last thing delivered) equals what the database holds.",
+        "Trusted: the ledger (harness/models/ledger.rs) fed with the UpdateInfo returned by every transaction and the application's event-cleared callbacks, the recording stubs, the simulated network. Update values are ones every variation carries exactly (conversion is C10's subject, not applicable here). The quiet tail (90 s) exceeds reconnect back-off + start-up sequence + unsolicited retry + two poll periods for every generated configuration. In the unsolicited-only scenario a point whose newest event was discarded by overflow is exempt from the final equality.",
+        "DESIGN.md section 6 C02",
+    ),
     "C04": (
         "S-OUT",
         "deterministic simulation: seeded search over request histories, virtual-time advances around the select timeout, retransmissions, reconnects/pre-emption and handler answers against the real outstation task; oracle = the property's predicate evaluated on the harness' own record of the history",
@@ -165,7 +172,7 @@ def main():
             {"name": "S-LINK", "path": "harness/props/c06.rs", "serves_properties": ["C06", "C07"], "kind_free_text": "real link reader/parser/formatter (C06) and real link Layer (C07 link scenario) over a simulated physical layer; seeded streams, faults and read plans"},
             {"name": "S-OUT", "path": "harness/sout.rs", "serves_properties": ["C03", "C04", "C05", "C07", "C11", "C12", "C13", "C14"], "kind_free_text": "real OutstationTask (session, database, event buffer, real transport/link) run by the real ServerTask over simulated connections; scripted master peer using the reference codec; recording stubs for user callbacks; user transactions injected at database lock points (H4)"},
             {"name": "S-MAST", "path": "harness/smast.rs", "serves_properties": ["C15", "C16", "C17", "C19"], "kind_free_text": "real MasterTask run by the real tcp ClientTask over a simulated network (H3) with latency and chunking; scripted outstation(s) built on the reference codec with a queue of reply policies; recording stubs for ReadHandler/AssociationHandler/AssociationInformation/Listener; user requests issued by simulated tasks through the public async API"},
-            {"name": "S-PAIR", "path": "harness/spair.rs", "serves_properties": ["C18"], "kind_free_text": "real MasterTask + tcp ClientTask and real OutstationTask + tcp ServerTask connected through the simulated network (H3): per-direction latency, read chunking on both sockets, one-shot holds, stalls and cuts; recording stubs for every user callback on both sides; database transactions and user requests issued by simulated tasks"},
+            {"name": "S-PAIR", "path": "harness/spair.rs", "serves_properties": ["C02", "C18"], "kind_free_text": "real MasterTask + tcp ClientTask and real OutstationTask + tcp ServerTask connected through the simulated network (H3): per-direction latency, read chunking on both sockets, one-shot holds, stalls and cuts; recording stubs for every user callback on both sides; database transactions and user requests issued by simulated tasks"},
             {"name": "S-TRANS", "path": "harness/props/c08.rs", "serves_properties": ["C08"], "kind_free_text": "two real transport writers -> frame-level fault stage -> real transport reader (link layer + assembler) over simulated phys"},
         ],
         "checks": checks,
